@@ -52,7 +52,7 @@ type Report struct {
 }
 
 func newReport(prop, tier string, seed int64, verifDir string) *Report {
-	return &Report{Prop: prop, Tier: tier, Seed: seed, Funcs: map[string]bool{}, Extra: map[string]interface{}{}, start: time.Now(), verifDir: verifDir, outDir: verifDir + "/evidence"}
+	return &Report{Prop: prop, Tier: tier, Seed: seed, Funcs: map[string]bool{}, Extra: map[string]interface{}{}, start: progStart, verifDir: verifDir, outDir: verifDir + "/evidence"}
 }
 
 // Begin starts a rule; floor is the minimum number of sites the rule must match.
